@@ -980,6 +980,15 @@ func TestVerifC15(t *testing.T) {
 			continue
 		}
 		p := c15MakePayload(c.sig, c.items, c.shell, fmt.Sprintf("case-%d", ci))
+		if ci >= len(corpus) && c.items > 0 && rnd.IntN(2) == 0 {
+			// type-directed payload over the whole public pdata API instead of the fixed internal/testdata shape
+			richStats := map[string]int{}
+			p = c15MakeRich(c.sig, rnd, fmt.Sprintf("case-%d", ci), richStats)
+			c.items = p.items
+			out.Linef("stat rich_payload_%s 1", c.sig)
+			out.Linef("stat rich_accessors_called %d", len(richStats))
+			out.Linef("stat rich_payload_bytes %d", len(p.want))
+		}
 		out.Linef("op send tr=%s enc=%s comp=%s sig=%s items=%d out=%s auth=%s", c.tr, c.enc, c.comp, c.sig, c.items, c.out.token(), c.auth)
 		// 1. what is on the wire (plain client, no compression)
 		before, _ := r.sink.snapshot()
